@@ -219,7 +219,7 @@ func enumerate(tier string, visit func(name string, body func(w *worker))) {
 			}
 		}
 	}
-	for k := 0; k <= 3; k++ {
+	reduceShort := func(k int) {
 		tuples(k, len(subsets), func(t []int) {
 			streams := reduceStreams(t, subsets)
 			mk := func() [][]row { return streams }
@@ -250,7 +250,7 @@ func enumerate(tier string, visit func(name string, body func(w *worker))) {
 			}
 		}
 	}
-	for k := 0; k <= 3; k++ {
+	mergeShort := func(k int) {
 		srt := sorted3(sp.mergeLen[k])
 		tuples(k, len(srt), func(t []int) {
 			streams := make([][]row, k)
@@ -337,7 +337,63 @@ func enumerate(tier string, visit func(name string, body func(w *worker))) {
 		}
 
 	}
-	sortShort(0, 4)
+	compactRows := func() {
+		// --- rows that encode to (almost) nothing: struct{} payload (DESIGN §9 #13) ---
+		for _, c := range canaries {
+			var inputs []func() []row
+			for l := 0; l <= 3; l++ {
+				seqs3(l, func(s []int) {
+					rows := rowsOf(s, 0)
+					for i := range rows {
+						rows[i].P = 0
+					}
+					inputs = append(inputs, func() []row { return rows })
+				})
+			}
+			lens := longLengths(sp, c)
+			if c < 100 {
+				lens = []int{4 * c, 64}
+			}
+			for _, n := range lens {
+				for _, sh := range []string{"all-equal", "descending"} {
+					n, sh := n, sh
+					inputs = append(inputs, func() []row { return shape(sh, n, true) })
+				}
+			}
+			for _, mk := range inputs {
+				for _, b := range batches {
+					for _, s := range spills {
+						mk, cfg := mk, sortCfg{c, b, s}
+						visit("sort/struct{}", func(w *worker) {
+							in := mk()
+							w.count("sort.struct{}_cases")
+							w.sortCase(kUnit, cfg, in, 2, chunking{[]int{-1}, true}, -1)
+							w.sortCase(kUnit, cfg, in, 5, chunking{[]int{1, 0, 0, 2}, false}, -1)
+						})
+						visit("sort/compact-codec", func(w *worker) {
+							in := mk()
+							w.count("sort.compact_codec_cases")
+							w.sortCase(kRLE, cfg, in, 2, chunking{[]int{-1}, true}, -1)
+							w.sortCase(kRLE, cfg, in, 5, chunking{[]int{1, 0, 0, 2}, false}, -1)
+						})
+					}
+				}
+			}
+		}
+	}
+	// simplest first across the three readers
+	compactRows() // first: cheap, and the only family with rows of less than a byte; never cut by the time budget
+	reduceShort(0)
+	mergeShort(0)
+	reduceShort(1)
+	mergeShort(1)
+	sortShort(0, 2)
+	reduceShort(2)
+	mergeShort(2)
+	sortShort(3, 3)
+	reduceShort(3)
+	mergeShort(3)
+	sortShort(4, 4)
 
 	// --- long, structured inputs -------------------------------------------------
 	// reduce: streams longer than the chunk size
@@ -434,43 +490,6 @@ func enumerate(tier string, visit func(name string, body func(w *worker))) {
 		}
 	}
 
-	// --- rows that encode to (almost) nothing: struct{} payload (DESIGN §9 #13) ---
-	for _, c := range canaries {
-		var inputs []func() []row
-		for l := 0; l <= 3; l++ {
-			seqs3(l, func(s []int) {
-				rows := rowsOf(s, 0)
-				for i := range rows {
-					rows[i].P = 0
-				}
-				inputs = append(inputs, func() []row { return rows })
-			})
-		}
-		lens := longLengths(sp, c)
-		if c < 100 {
-			lens = []int{4 * c, 64}
-		}
-		for _, n := range lens {
-			for _, sh := range []string{"all-equal", "descending"} {
-				n, sh := n, sh
-				inputs = append(inputs, func() []row { return shape(sh, n, true) })
-			}
-		}
-		for _, mk := range inputs {
-			for _, b := range batches {
-				for _, s := range spills {
-					mk, cfg := mk, sortCfg{c, b, s}
-					visit("sort/struct{}", func(w *worker) {
-						in := mk()
-						w.count("sort.struct{}_cases")
-						w.sortCase(kUnit, cfg, in, 2, chunking{[]int{-1}, true}, -1)
-						w.sortCase(kUnit, cfg, in, 5, chunking{[]int{1, 0, 0, 2}, false}, -1)
-					})
-				}
-			}
-		}
-	}
-
 	// the bulk of the short inputs last: under a time budget the long inputs above are not the ones cut
 	sortShort(5, 6)
 }
@@ -482,7 +501,7 @@ func ruleText(sp space) string {
 		"inputs up to length %d and one representative per greater length: x all 16 upstream chunkings (5 read-size patterns + 3 with zero-row non-final reads, each with EOF together with / after the last rows); "+
 		"inputs up to length %d and one representative per greater length: an upstream error in place of every read ordinal for %d chunkings; "+
 		"all-equal / strictly descending%s inputs of 7..4*canary, 31, 64 rows for canary 1,2,3 and of %v rows for canary 256 (%s), full canary x batch x target product, with an error at the first, a middle and the last read ordinal; "+
-		"an (int16, struct{}) row type over short and long inputs. "+
+		"an (int16, struct{}) row type and a one-column row type whose registered codec run-length encodes (rows well under one byte each), over short and long inputs. "+
 		"MERGE: k in 0..3 streams, each every sorted 3-key sequence up to length %v (by k; so some streams empty) x spill batch %v x destination sizes x 10 chunkings (no zero-row reads: a merge buffer documents an empty read as end of input), an error at every (stream, read ordinal) when the longest stream has at most %v rows (by k); 8 long stream sets (64..300 rows) in 4 shapes. "+
 		"REDUCE: k in 0..3 streams, each every subset of 3 keys (sorted, unique keys; value = (key+1)*1000^stream so that a sum identifies the folded values) x chunk %v x destination sizes x 10 chunkings, an error at every (stream, ordinal) for k <= %d; long unique-key streams over 5, 130, 300 keys. "+
 		"After every SortReader call the worker's private temp dir is listed: it must be empty. "+
